@@ -44,6 +44,10 @@ CHECKS = {
    text="(A) Generated connection sequences (1-40, thorough up to 200 pipes) on the listener and dialer side of a socket built from a recording ProtocolBase wrapper around xbus/xpair/xrep, each connection with a drawn plan (close in Attaching, close in Attached, close later, peer drop, protocol refusal, leave until socket close) and traffic in between. Oracle over the event log: Attaching exactly once and first, Attached <=1, Detached exactly once iff Attached, refused/closed-in-Attaching pipes get neither and are closed, AddPipe/RemovePipe exactly once each for attached pipes (RemovePipe after AddPipe) and none accepted for the others, ids non-zero 31-bit, unique among live pipes, allocated on entry to Attaching/Detached callbacks (verif hook) and released with the socket's pipe list empty after close, and after every refusal the next connection on the same listener/dialer attaches. (B) On the 6 real transports, both sides: Pipe.Address/Dialer/Listener identity (including anonymous-port listeners), LOCAL/REMOTE-ADDR agreeing with the peer's view, IPC peer credentials = this process, TLS-STATE of a completed handshake, unknown option names rejected, also after a first connection was rejected in Attaching on either side.",
    note="Connections are made one at a time (the harness waits for each to settle), so Close racing with attach is sampled only through the hook-side plans; the statement's 'or is being reported' race is tolerated. Known finding: tls+tcp listener-side TLS-STATE is captured before the handshake.",
    technique="property-based testing (rapid) of generated connection/fault plans with an event-log invariant, a recording protocol wrapper, the virtual transport and the id-allocator verif hook"),
+ "C14": dict(
+   text="Fault-sequence search on a dialer whose transport is fully scripted: generated scripts of refusals, connections rejected in Attaching, connections dropped after 0/5/120 ms and lasting connections, for ReconnectTime in {5,10,20,50 ms}, MaxReconnectTime in {0,r,2r,8r,40r}, synchronous and asynchronous dialing, with Close of the dialer or the socket between attempts, during a hanging attempt or while connected. Oracle over the time-stamped attempt log: failed synchronous first dial returns the error and stops; otherwise attempts continue; every gap >= reconnect time and >= the grown delay after consecutive refusals (exact lower bounds); gaps bounded by the cap / 1.5^j growth; the delay returns to the initial value after a connection that lasted >= 100 ms; no attempt starts after Close returned. A real-socket variant restarts the listener 1-3 times (inproc/tcp/ipc) and requires traffic to resume with no action on the dialing side.",
+   note="Real time. Lower bounds are exact; upper bounds carry 250 ms slack and, like the reset and no-attempt-after-Close checks, are reported only when they fail in 3 consecutive executions of the same generated case. Reconnection is checked within generous bounds (3-5 s), not as liveness.",
+   technique="property-based fault injection (rapid) with a history invariant over the time-stamped dial log of a virtual transport"),
 }
 
 ALL = ["C%02d" % i for i in range(1, 21)]
